@@ -7,7 +7,7 @@ LEVEL = 'exploration'
 MECHANISMS = [('cgsmiles.pysmiles_utils', 'rebuild_h_atoms'), ('cgsmiles.resolve', 'MoleculeResolver.edges_from_bonding_descrpt'), ('cgsmiles.pysmiles_utils', 'read_fragment_smiles')]
 REQUIRED_COUNTERS = ['resolve_calls_observed']
 ASSUMPTIONS = ['independent valence table vmon/gen/mol.py VAL', 'atoms whose heavy-atom bond orders exceed every usual valence are outside the claim and only counted', 'hydrogens written explicitly in a template (they carry a mapping entry) keep their own membership/weight by design']
-RULE = 'mixed resolver workload: unique-label cut molecules (G-mol x G-cut x G-render, all three constructors), shared-atom cases, virtual nodes / zero-order edges, 2-4-level hierarchies (atomistic and coarse last level), coarse cut graphs (a quarter with bead names like NA+, CL-, C1', N-ter), periodic copolymers (the same ordered name pair on several base edges, optionally one surplus base-edge order), and G-ambig polymer inputs (unlabelled $, homopolymers, surplus descriptors, multiplied units, rings, both matching conventions, atomistic and coarse). After EVERY all-atom resolve() call: each heavy atom whose heavy-atom bond orders fit a usual valence carries exactly (smallest fitting valence - sum of orders) hydrogens; every hydrogen has degree 1; completed hydrogens carry the fragid, fragname and weight of their atom. distinct = (kind, feature set, #heavy, #fragments); non-trivial = resolve() completed.'
+RULE = 'mixed resolver workload: unique-label cut molecules (G-mol x G-cut x G-render, all three constructors), shared-atom cases, virtual nodes / zero-order edges, 2-4-level hierarchies (atomistic and coarse last level), coarse cut graphs (a quarter with bead names like NA+, CL-, C1-prime, N-ter), periodic copolymers (the same ordered name pair on several base edges, optionally one surplus base-edge order), and G-ambig polymer inputs (unlabelled $, homopolymers, surplus descriptors, multiplied units, rings, both matching conventions, atomistic and coarse). After EVERY all-atom resolve() call: each heavy atom whose heavy-atom bond orders fit a usual valence carries exactly (smallest fitting valence - sum of orders) hydrogens; every hydrogen has degree 1; completed hydrogens carry the fragid, fragname and weight of their atom. distinct = (kind, feature set, #heavy, #fragments); non-trivial = resolve() completed.'
 
 
 def setup():
